@@ -56,7 +56,7 @@ func main() {
 		prog := mustLoad("")
 		rc := 0
 		for _, id := range ids {
-			if r := runWith(prog, id, *tier, "", false); r > rc {
+			if r := runWith(prog, id, *tier, "", false, time.Now()); r > rc {
 				rc = r
 			}
 		}
@@ -108,11 +108,11 @@ func runOne(id, tier, only string, verbose bool) int {
 		fmt.Printf("ERROR: no check registered for %s\n", id)
 		return 2
 	}
-	return runWith(mustLoad(""), id, tier, only, verbose)
+	start := time.Now()
+	return runWith(mustLoad(""), id, tier, only, verbose, start)
 }
 
-func runWith(prog *core.Program, id, tier, only string, verbose bool) (rc int) {
-	start := time.Now()
+func runWith(prog *core.Program, id, tier, only string, verbose bool, start time.Time) (rc int) {
 	ch := props.Registry[id]
 	c := core.NewCtx(prog, id, tier)
 	c.NotCover = ch.NotDecided
